@@ -589,7 +589,11 @@ def _realign_indent(s: str) -> str:
                 in_string.update(range(t.start[0], t.end[0]))
     except (tokenize.TokenError, IndentationError):
         pass
-    stripped_lines = [ln if i in in_string else ln[spaces:] for i, ln in enumerate(lines)]
+    # Only blanks are indentation: inside brackets a line may start left of the first line.
+    stripped_lines = [
+        ln if i in in_string else ln[min(spaces, len(ln) - len(ln.lstrip(" \t"))) :]
+        for i, ln in enumerate(lines)
+    ]
     while len(stripped_lines) > 0 and stripped_lines[-1].strip() == "":
         stripped_lines.pop()
     return "\n".join(stripped_lines)
